@@ -99,6 +99,7 @@ func (e *Enc) enterLoop(fr *Frame, li *loopInfo, st *State) *State {
 	// 1. establish
 	for i, inv := range invs {
 		env := e.envFor(fr, st)
+		env.loop = li
 		g, err := env.evalBool(inv.E)
 		if err != nil {
 			e.unsupportedf("%s invariant %d: %v", loopName, i+1, err)
@@ -150,6 +151,7 @@ func (e *Enc) enterLoop(fr *Frame, li *loopInfo, st *State) *State {
 	// 4. assume invariants
 	for i, inv := range invs {
 		env := e.envFor(fr, h)
+		env.loop = li
 		g, err := env.evalBool(inv.E)
 		if err != nil {
 			e.unsupportedf("%s invariant %d: %v", loopName, i+1, err)
@@ -235,6 +237,7 @@ func (e *Enc) backEdgeObligations(fr *Frame, b *ssa.BasicBlock, st *State, si in
 	st2.reach = cond
 	for i, inv := range spec.Invariants {
 		env := e.envFor(fr, st2)
+		env.loop = li
 		g, err := env.evalBool(inv.E)
 		if err != nil {
 			e.unsupportedf("%s invariant %d: %v", loopName, i+1, err)
@@ -246,4 +249,43 @@ func (e *Enc) backEdgeObligations(fr *Frame, b *ssa.BasicBlock, st *State, si in
 	for phi, v := range saved {
 		fr.vals[phi] = v
 	}
+}
+
+// visitedSet: the ghost set of keys already yielded by the map range that drives loop li of env.fr (nil: the loop of
+// the invariant being evaluated). Usable in loop invariants as `visited` / `visited(N)` (N = loop ordinal).
+func (env *Env) visitedSet(ordinal int) (*Val, error) {
+	fr := env.fr
+	if fr == nil {
+		return nil, fmt.Errorf("visited is only available in loop invariants")
+	}
+	li := env.loop
+	if ordinal > 0 {
+		li = nil
+		for _, l := range fr.loops {
+			if l.ordinal == ordinal {
+				li = l
+			}
+		}
+	}
+	if li == nil {
+		return nil, fmt.Errorf("visited: no such loop")
+	}
+	for _, in := range li.header.Instrs {
+		nx, ok := in.(*ssa.Next)
+		if !ok || nx.IsString {
+			continue
+		}
+		rng, ok := nx.Iter.(*ssa.Range)
+		if !ok {
+			continue
+		}
+		ksort, _, _, _, ok := env.e.mapKeys(rng.X.Type())
+		if !ok {
+			return nil, fmt.Errorf("visited: map with composite key")
+		}
+		sort := "(Array " + ksort + " Bool)"
+		key := fmt.Sprintf("RV|%s%s", fr.prefix, rng.Name())
+		return &Val{L: []Sc{{env.e.heapGet(env.st, key, sort), sort}}}, nil
+	}
+	return nil, fmt.Errorf("visited: loop %d does not range over a map", li.ordinal)
 }
